@@ -135,7 +135,9 @@ func init() {
 		Floors:      map[string]int64{"probe_executions": 500, "reuse_of_pooled_context_confirmed": 100, "reuse_after_a_different_class_of_record": 50},
 		Jobs: func(tier string, seed int64) []Job {
 			n := pick(tier, 3200, 30000)
-			return chunk("hist", "prod", n, pick(tier, 200, 1000), Job{Procs: 1, Timeout: 40 * time.Minute})
+			js := chunk("hist", "prod", n, pick(tier, 200, 1000), Job{Procs: 1, Timeout: 40 * time.Minute})
+			// under go test a record with an error value ends in a multi-line dump: more per-record state to carry over
+			return append(js, chunk("hist", "test", pick(tier, 1200, 10000), pick(tier, 200, 1000), Job{Procs: 1, Timeout: 40 * time.Minute})...)
 		},
 	})
 	register(&Plan{
